@@ -39,7 +39,7 @@ def ref(name, vals, ts, cfg):
         if name == "pow":
             if y < 0:
                 return RAISES
-            if ts[1] in "ib" and y <= 64:
+            if ts[1] in "ib" and (y <= 64 or (y <= 2048 and abs(x) <= 3)):
                 return ("val", x ** y)          # constant exponent: plain repeated multiplication, the integer itself
             return ("val", pow(x, y, p))        # secret exponent: square-and-multiply reduces modulo the field order
         if name == "lshift":
